@@ -90,7 +90,11 @@ func smallU(h *vh.H) uint64 {
 }
 
 func genBound(h *vh.H, fmtName string) int64 {
-	// j5s text can only express 0 .. 2^31-1 (no negative literals; attribute parsed as int32)
+	// j5s text has no negative literals; bounds are 64-bit
+	if h.Chance(1, 8) {
+		big := []int64{math.MaxInt32 + 1, math.MaxUint32, math.MaxUint32 + 1, 3000000000, 1 << 40, math.MaxInt64, math.MaxInt64 - 1}
+		return vh.Pick(h, big)
+	}
 	switch h.Rng.IntN(12) {
 	case 0:
 		return 0
@@ -136,6 +140,9 @@ func genSpec(h *vh.H, name string, wide bool) *Spec {
 			if s.AMin != nil && s.AMax != nil && *s.AMin > *s.AMax && !h.Chance(1, 10) {
 				s.AMin, s.AMax = s.AMax, s.AMin
 			}
+		}
+		if wide && h.Chance(1, 5) {
+			s.ASF = ps(vh.Pick(h, []string{"item", "thing"}))
 		}
 	}
 	if isMsgKind(s.Kind) || s.Kind == "oneof" {
@@ -280,6 +287,26 @@ func genSpec(h *vh.H, name string, wide bool) *Spec {
 		}
 	case "oneof", "ts":
 		s.R = withRules && h.Chance(1, 3)
+	case "date", "dec":
+		if wide && withRules && h.Chance(1, 2) {
+			s.R = true
+			lo, hi := "2020-01-02", "2030-12-31"
+			if s.Kind == "dec" {
+				lo, hi = "0.5", "100"
+			}
+			if h.Chance(2, 3) {
+				s.DMin = ps(lo)
+			}
+			if h.Chance(2, 3) {
+				s.DMax = ps(hi)
+			}
+			if h.Chance(1, 2) {
+				s.EMin = pb(h.Chance(1, 2))
+			}
+			if h.Chance(1, 2) {
+				s.EMax = pb(h.Chance(1, 2))
+			}
+		}
 	}
 	if wide {
 		if h.Chance(1, 3) {
